@@ -83,6 +83,10 @@ class SemgrepResultSet(ResultSet):
 
         result_set = cls()
         for sarif_run in data["runs"]:
+            # A SARIF file may hold runs of several tools: skip those that
+            # identify themselves as a tool other than Semgrep
+            if "tool" in sarif_run and not SemgrepSarifToolDetector.detect(sarif_run):
+                continue
             for result in sarif_run["results"]:
                 sarif_result = SemgrepResult.from_sarif(
                     result, sarif_run, truncate_rule_id
